@@ -21,15 +21,18 @@ SubM(id, name, parent, n, w, dy, dx, rows, cols, bands) ==
      rows |-> rows, cols |-> cols, bands |-> bands, mode |-> "v", nodes |-> <<>>]
 
 \* a descriptor: generated files carry their abstract content, shipped files only their size
-GenF(fmt, kind, frame, subs, order, endian, layout, faults) ==
+\* spell: the spelling of the header of each sub-grid (Grid.tla: Spellings); at most one is not "asc"
+GenS(fmt, kind, frame, subs, order, endian, layout, faults, spell) ==
     [fmt |-> fmt, kind |-> kind, frame |-> frame,
      scale |-> IF kind = "projected" THEN 1 ELSE 4096, subs |-> WithNodes(subs), order |-> order, endian |-> endian,
-     layout |-> layout, faults |-> faults, shipped |-> "", len |-> 0, hdr |-> {}]
+     layout |-> layout, faults |-> faults, shipped |-> "", len |-> 0, hdr |-> {}, spell |-> spell]
+GenF(fmt, kind, frame, subs, order, endian, layout, faults) ==
+    GenS(fmt, kind, frame, subs, order, endian, layout, faults, [i \in 1..Len(subs) |-> "asc"])
 Gen(fmt, kind, subs, order, endian, layout, faults) ==
     GenF(fmt, kind, IF kind = "projected" THEN "projected" ELSE "angular", subs, order, endian, layout, faults)
 Shipped(fmt, name, len, hdr) ==
     [fmt |-> fmt, kind |-> "", frame |-> "", scale |-> 1, subs |-> <<>>, order |-> <<>>, endian |-> "", layout |-> 0,
-     faults |-> TRUE, shipped |-> name, len |-> len, hdr |-> hdr]
+     faults |-> TRUE, shipped |-> name, len |-> len, hdr |-> hdr, spell |-> <<>>]
 
 G1(rows, cols, bands) == << SubM(1, "G", "NONE", (rows - 1) * 8, 0, 8, 8, rows, cols, bands) >>
 KindOf(b, projected) == IF projected THEN "projected" ELSE CASE b = 1 -> "geoid" [] b = 2 -> "datum" [] b = 3 -> "deformation"
@@ -56,6 +59,16 @@ NtAll(faultsOn) ==
     SetToSeq({Gen("ntv2", "datum", x[1], x[2], x[3], 0, <<Len(x[1]), x[2], x[3]>> \in faultsOn)
               : x \in ({<<N1>>} \X Perms(1) \X {"le", "be"}) \cup ({<<NR, NK>>} \X Perms(2) \X {"le", "be"})
                       \cup ({<<NR, NK, NG>>} \X Perms(3) \X {"le", "be"})})
+\* headers with exchanged bounds: every spelling, every band count and layout class, both formats and byte
+\* orders, the root of a one-grid file, the child and the root of a two-grid file
+OtherSpellings == Spellings \ {"asc"}
+GravSpelled(LS) ==
+    SetToSeq({GenS("gravsoft", KindOf(x[1], x[4]), IF x[4] THEN "projected" ELSE "angular", G1(x[2][1], x[2][2], x[1]), <<1>>, "le", x[3], FALSE, <<x[5]>>)
+              : x \in {y \in (1..3) \X {<<2, 3>>, <<3, 2>>, <<3, 3>>} \X LS \X BOOLEAN \X OtherSpellings : y[4] => y[1] = 1}})
+NtSpelled(EN) ==
+    SetToSeq({GenS("ntv2", "datum", "angular", <<SubM(1, "R", "NONE", 16, 0, 8, 8, 3, 4, 2)>>, <<1>>, x[1], 0, FALSE, <<x[2]>>) : x \in EN \X OtherSpellings})
+    \o SetToSeq({GenS("ntv2", "datum", "angular", <<NR, NK>>, x[1][1], x[1][2], 0, FALSE, IF x[3] = 1 THEN <<x[2], "asc">> ELSE <<"asc", x[2]>>)
+                 : x \in {<<<<2, 1>>, "be">>, <<<<1, 2>>, "le">>} \X OtherSpellings \X {1, 2}})
 NtFaultsQ == {<<1, <<1>>, "le">>, <<2, <<2, 1>>, "be">>}
 NtFaultsT == {<<1, <<1>>, "le">>, <<1, <<1>>, "be">>, <<2, <<2, 1>>, "be">>, <<2, <<1, 2>>, "le">>, <<3, <<3, 1, 2>>, "le">>}
 
@@ -69,16 +82,16 @@ ShipSmall == << Shipped("ntv2", "gsb/5458.gsb", 1088, 0..351),
                 Shipped("gravsoft", "deformation/another_test.deformation", 742, 0..94) >>
 ShipLarge == << Shipped("ntv2", "gsb/100800401.gsb", 25824, 0..351) >>
 
-FilesQ == GravAll(GravFaultsQ) \o GravProj \o NtAll(NtFaultsQ) \o ShipSmall
-FilesT == GravAll(GravFaultsT) \o GravProj \o NtAll(NtFaultsT) \o ShipSmall \o ShipLarge
+FilesQ == GravAll(GravFaultsQ) \o GravProj \o NtAll(NtFaultsQ) \o ShipSmall \o GravSpelled({0, 2}) \o NtSpelled({"le", "be"})
+FilesT == GravAll(GravFaultsT) \o GravProj \o NtAll(NtFaultsT) \o ShipSmall \o ShipLarge \o GravSpelled(Layouts) \o NtSpelled({"le", "be"})
 
 \* ---- behaviour ----------------------------------------------------------------
 F == FilesC[fi]
-Lines(f, layout) == GravsoftLines(f.subs[1], f.frame, f.scale, layout)
-Recs(f, order) == EncodeNtv2(f.subs, order)
+Lines(f, layout) == GravsoftLinesSp(f.subs[1], f.frame, f.scale, layout, f.spell[1])
+Recs(f, order) == EncodeNtv2Sp(f.subs, order, f.spell)
 
 FaultsOf(f) ==
-    IF f.shipped # "" THEN {Trunc(n) : n \in 0..(f.len - 1)} \cup {Flip(off, bit) : off \in f.hdr, bit \in 0..7}
+    IF f.shipped # "" THEN {Intact} \cup {Trunc(n) : n \in 0..(f.len - 1)} \cup {Flip(off, bit) : off \in f.hdr, bit \in 0..7}
     ELSE IF ~f.faults THEN {}
     ELSE IF f.fmt = "gravsoft" THEN FaultsGravsoft(Lines(f, f.layout), f.layout)
     ELSE FaultsNtv2(f.subs, f.order)
@@ -92,11 +105,14 @@ Spec == Init /\ [][Next]_vars
 AtFile  == fi # 0 /\ ft = NoFault
 AtFault == fi # 0 /\ ft # NoFault
 Generated == F.shipped = ""
+IsSpelled(f) == \E i \in 1..Len(f.spell) : f.spell[i] # "asc"
+SpelledSub(f) == CHOOSE i \in 1..Len(f.spell) : f.spell[i] # "asc"
+Plain == ~IsSpelled(F)
 
 \* ---- the property ---------------------------------------------------------------
 GeomSet(subs) == {Geometry(subs[i]) : i \in 1..Len(subs)}
 \* Decode(Encode(g, layout)) = g
-RoundTripInv == (AtFile /\ Generated) =>
+RoundTripInv == (AtFile /\ Generated /\ Plain) =>
     IF F.fmt = "gravsoft"
     THEN LET d == DecodeGravsoft(Lines(F, F.layout)) IN
          d.ok /\ [Geometry(d.subs[1]) EXCEPT !.name = F.subs[1].name] = Geometry(F.subs[1])
@@ -109,7 +125,7 @@ FrameRuleInv == (AtFile /\ Generated /\ F.fmt = "gravsoft") =>
 FrameRuleWitness == \E i \in 1..Len(FilesC) : LET f == FilesC[i] IN
     f.shipped = "" /\ f.fmt = "gravsoft" /\ ProjectedByRule(f.subs[1], f.frame) /\ ~AllBoundsLarge(f.subs[1], f.frame)
 \* the decoded grid does not depend on the layout / on the order of the sub-grids
-LayoutInv == (AtFile /\ Generated) =>
+LayoutInv == (AtFile /\ Generated /\ Plain) =>
     IF F.fmt = "gravsoft"
     THEN \A l \in Layouts : DecodeGravsoft(Lines(F, l)) = DecodeGravsoft(Lines(F, F.layout))
     ELSE \A q \in Perms(Len(F.subs)) : LET d == DecodeNtv2(Recs(F, q)) IN d.ok /\ GeomSet(d.subs) = GeomSet(F.subs)
@@ -127,6 +143,58 @@ TotalityInv == (AtFault /\ Generated) =>
 TruncInv == (AtFault /\ Generated /\ F.fmt = "ntv2" /\ ft.t = "trunc" /\ ft.a < ByteLen(Recs(F, F.order)) - 16) =>
     \A a \in EffectsNtv2(Recs(F, F.order), ft) : ~DecodeNtv2(a).ok
 
+\* a header with exchanged bounds: the admissible outcomes are an error and, per reading, the grid the file
+\* means under it; every such grid has the extent of the header, holds the node values of the file and
+\* reproduces them at its nodes; the outcomes do not depend on the text layout / the byte order
+ExpectedSubs(f, rd) == [i \in 1..Len(f.subs) |-> IF f.spell[i] = "asc" THEN Geometry(f.subs[i]) ELSE Geometry(Under(f.subs[i], rd))]
+Renamed(d, f) == IF f.fmt = "gravsoft" THEN [d EXCEPT !.subs[1].name = f.subs[1].name] ELSE d
+SpelledInv == (AtFile /\ Generated /\ IsSpelled(F)) =>
+    LET k  == SpelledSub(F)  sp == F.spell[k]
+        A  == IF F.fmt = "gravsoft" THEN AdmissibleGravsoft(Lines(F, F.layout)) ELSE AdmissibleNtv2(Recs(F, F.order))
+        OK == A \ {Err}
+    IN /\ Cardinality({i \in 1..Len(F.spell) : F.spell[i] # "asc"}) = 1
+       /\ Err \in A /\ Cardinality(OK) = Cardinality(Readings(sp))
+       /\ ~(IF F.fmt = "gravsoft" THEN DecodeGravsoft(Lines(F, F.layout)) ELSE DecodeNtv2(Recs(F, F.order))).ok   \* the strict rule refuses
+       /\ {GeomSet(Renamed(d, F).subs) : d \in OK} = {{ExpectedSubs(F, rd)[i] : i \in 1..Len(F.subs)} : rd \in Readings(sp)}
+       /\ \A d \in OK : /\ Queryable(d)
+                         /\ \A i \in 1..Len(d.subs) : LET h == d.subs[i] IN
+                               \A r \in 0..(h.rows - 1), c \in 0..(h.cols - 1) :
+                                   LET a == AtSub(d.subs, i, [x |-> h.w + c * h.dx, y |-> h.n - r * h.dy], 0) IN
+                                   a.ok /\ \A b \in 1..h.bands : a.num[b] = Den(h) * h.nodes[r + 1][c + 1][b]
+       /\ F.fmt = "gravsoft" => \A l \in Layouts : AdmissibleGravsoft(Lines(F, l)) = A
+\* the catalogue holds every spelling for both formats
+SpelledWitness == (AtFile /\ fi = 1) =>
+    \A fmt \in {"gravsoft", "ntv2"}, sp \in OtherSpellings :
+        \E i \in 1..Len(FilesC) : FilesC[i].fmt = fmt /\ FilesC[i].shipped = "" /\ \E j \in 1..Len(FilesC[i].spell) : FilesC[i].spell[j] = sp
+
+\* the queries: every margin class is decided for every point (totality), a larger margin admits more
+\* points, NaN admits none, an infinite one all
+MarginOf(name) == LET i == CHOOSE i \in 1..Len(MarginClasses) : MarginClasses[i].name = name IN MarginClasses[i]
+QueryTotalInv == (AtFault /\ Generated /\ ft.t = "intact") =>
+    \A i \in 1..Len(F.subs) : LET g == F.subs[i] IN
+        \A q \in [x : {g.w - 17, g.w - 3, g.w, g.w + 5, East(g), East(g) + 3, East(g) + 17}, y : {South(g) - 17, South(g) - 3, South(g), South(g) + 5, g.n, g.n + 3, g.n + 17}] :
+            /\ \A j \in 1..Len(MarginClasses) : ContainsM(g, q, MarginClasses[j]) \in BOOLEAN
+            /\ ContainsM(g, q, MarginOf("-2")) => ContainsM(g, q, MarginOf("-0.5"))
+            /\ ContainsM(g, q, MarginOf("-0.5")) => ContainsM(g, q, MarginOf("0"))
+            /\ ContainsM(g, q, MarginOf("0")) => ContainsM(g, q, MarginOf("0.5"))
+            /\ ContainsM(g, q, MarginOf("0.5")) => ContainsM(g, q, MarginOf("inf"))
+            /\ ~ContainsM(g, q, MarginOf("NaN"))
+
+\* BaseGrid::plain: a call is consistent exactly if every node is read inside the vector; the enumeration
+\* holds consistent calls with and without an offset and inconsistent ones of every kind
+PlainInv == (AtFile /\ Generated /\ Plain /\ F.fmt = "gravsoft") =>
+    LET g == F.subs[1]  el == g.rows * g.cols * g.bands IN
+    /\ \A c \in PlainCalls(el) :
+          /\ PlainLen(c, el) >= 0
+          /\ c.off # -2 =>
+                (PlainConsistent(g, c) <=> \A r \in 0..(g.rows - 1), cc \in 0..(g.cols - 1), b \in 1..g.bands :
+                                              NodeIndex(g, c, r, cc, b) < PlainLen(c, el))
+          /\ PlainReads(g, c) => \A r \in 0..(g.rows - 1), cc \in 0..(g.cols - 1), b \in 1..g.bands :
+                                    NodeIndex(g, c, r, cc, b) - c.pad = g.bands * (g.cols * r + cc) + b - 1
+    /\ \E c \in PlainCalls(el) : PlainReads(g, c) /\ c.pad > 0
+    /\ \E c \in PlainCalls(el) : ~PlainConsistent(g, c) /\ PlainLen(c, el) = 0 /\ c.off > 0
+    /\ \E c \in PlainCalls(el) : ~PlainConsistent(g, c) /\ PlainLen(c, el) = el /\ c.off > 0
+
 \* ---- export -------------------------------------------------------------------------
 FaultRow(x) == <<x.t, x.a, x.b, x.c, x.fs, x.cl>>
 RecJson(r) == <<r.key, r.t, r.i, r.s, IF r.a.k = "fin" THEN r.a.v ELSE 0, IF r.b.k = "fin" THEN r.b.v ELSE 0>>
@@ -134,7 +202,18 @@ EmitFile == AtFile =>
     PrintT(<<"FILE", ToJson([
         id |-> fi, fmt |-> F.fmt, kind |-> F.kind, frame |-> F.frame, scale |-> F.scale, shipped |-> F.shipped, len |-> F.len,
         hdr |-> F.hdr,
-        file |-> [subs |-> [i \in 1..Len(F.subs) |-> Geometry(F.subs[i])], order |-> F.order, endian |-> F.endian, text |-> F.layout],
+        file |-> [subs |-> [i \in 1..Len(F.subs) |-> Geometry(F.subs[i])], order |-> F.order, endian |-> F.endian, text |-> F.layout,
+                  spell |-> F.spell],
+        spelled |-> (Generated /\ IsSpelled(F)),
+        \* a spelled header: refused, or the sub-grids of ONE of these readings
+        alts |-> IF Generated /\ IsSpelled(F)
+                 THEN LET RS == ReadingSeq(F.spell[SpelledSub(F)]) IN [k \in 1..Len(RS) |-> [reading |-> RS[k], subs |-> ExpectedSubs(F, RS[k])]]
+                 ELSE <<>>,
+        margins |-> [j \in 1..Len(MarginClasses) |-> MarginClasses[j].name],
+        \* BaseGrid::plain calls <<pad, cut, off, consistent, reads>>
+        plain |-> IF Generated /\ Plain /\ F.fmt = "gravsoft"
+                  THEN LET g == F.subs[1] IN {<<c.pad, c.cut, c.off, PlainConsistent(g, c), PlainReads(g, c)>> : c \in PlainCalls(g.rows * g.cols * g.bands)}
+                  ELSE {},
         dec |-> IF Generated THEN Dec(F.kind, F.fmt) ELSE <<>>,
         unit |-> IF Generated THEN UnitFactor(Conv(F.kind, F.fmt).unit) ELSE <<>>,
         lines |-> IF Generated /\ F.fmt = "gravsoft" THEN TextOf(Lines(F, F.layout)) ELSE <<>>,
